@@ -291,41 +291,87 @@ func ruleC09(w *World, r *Report) {
 		brokenf(P, "R09.2", "too many paths in the QER worker")
 	}
 	r.Extra["qer_worker_paths"] = npaths
-	r.floor("R09.2 feasible paths of the QER worker", npaths, 50)
+	r.floor("R09.2 feasible paths of the QER worker", npaths, 8)
 	r.check(halves["ul"] > 0 && halves["dl"] > 0, "R09.2", an, "both directions are programmed", w.Pos(add.Pos()), fmt.Sprint(halves), "a direction is never programmed")
 
 	// per-QFI configuration lookup
 	{
 		n := 0
+		// the lookups may sit in the worker or in a helper it calls with the QFI
+		type scanFn struct {
+			f    *ssa.Function
+			args map[*ssa.Parameter]string // helper parameter → provenance of the actual
+		}
+		scans := []scanFn{{add, nil}}
 		allInstrs(add, func(i ssa.Instruction) {
-			l, ok := i.(*ssa.Lookup)
-			if !ok || !strings.HasSuffix(symOf(l.X).String(), "bess.qciQosMap") {
+			c, ok := i.(*ssa.Call)
+			if !ok {
 				return
 			}
-			n++
-			ks := symOf(l.Index).String()
-			if l.CommaOk {
-				r.check(ks == "qer.qfi", "R09.3", an, "burst configuration looked up by the QER's QFI", w.Pos(l.Pos()), ks, "configuration looked up by "+ks)
-			} else {
-				k, isK := constInt(l.Index)
-				r.check(isK && k == 0, "R09.3", an, "fallback configuration is entry 0", w.Pos(l.Pos()), ks, "fallback configuration is entry "+ks)
-				// only on the !ok edge of a comma-ok lookup
-				g := onlyVia(add, l, func(a, b *ssa.BasicBlock) bool {
-					v, truth, ok := boolEdge(a, b)
-					if !ok || truth {
-						return false
-					}
-					ex, isEx := v.(*ssa.Extract)
-					if !isEx || ex.Index != 1 {
-						return false
-					}
-					_, isL := ex.Tuple.(*ssa.Lookup)
-					return isL
-				})
-				r.check(g, "R09.3", an, "fallback only when the QFI has no configuration", w.Pos(l.Pos()), "under !ok", "the default burst configuration replaces a configured one")
+			g := staticCallee(c)
+			if g == nil || g == add || !w.isRepoFunc(g) || g.Blocks == nil {
+				return
+			}
+			has := false
+			allInstrs(g, func(j ssa.Instruction) {
+				if l, ok := j.(*ssa.Lookup); ok && strings.HasSuffix(symOf(l.X).String(), "bess.qciQosMap") {
+					has = true
+				}
+			})
+			if !has {
+				return
+			}
+			m := map[*ssa.Parameter]string{}
+			for k, p := range g.Params {
+				if k < len(c.Call.Args) {
+					m[p] = symOf(c.Call.Args[k]).String()
+				}
+			}
+			dup := false
+			for _, sc := range scans {
+				if sc.f == g {
+					dup = true
+				}
+			}
+			if !dup {
+				scans = append(scans, scanFn{g, m})
 			}
 		})
-		r.floor("R09.3 qciQosMap lookups", n, 4)
+		for _, sc := range scans {
+			add, an := sc.f, w.FuncName(sc.f)
+			allInstrs(add, func(i ssa.Instruction) {
+				l, ok := i.(*ssa.Lookup)
+				if !ok || !strings.HasSuffix(symOf(l.X).String(), "bess.qciQosMap") {
+					return
+				}
+				n++
+				ks := symOf(l.Index).String()
+				if p, isP := l.Index.(*ssa.Parameter); isP && sc.args != nil {
+					ks = sc.args[p]
+				}
+				if l.CommaOk {
+					r.check(ks == "qer.qfi", "R09.3", an, "burst configuration looked up by the QER's QFI", w.Pos(l.Pos()), ks, "configuration looked up by "+ks)
+				} else {
+					k, isK := constInt(l.Index)
+					r.check(isK && k == 0, "R09.3", an, "fallback configuration is entry 0", w.Pos(l.Pos()), ks, "fallback configuration is entry "+ks)
+					// only on the !ok edge of a comma-ok lookup
+					g := onlyVia(add, l, func(a, b *ssa.BasicBlock) bool {
+						v, truth, ok := boolEdge(a, b)
+						if !ok || truth {
+							return false
+						}
+						ex, isEx := v.(*ssa.Extract)
+						if !isEx || ex.Index != 1 {
+							return false
+						}
+						_, isL := ex.Tuple.(*ssa.Lookup)
+						return isL
+					})
+					r.check(g, "R09.3", an, "fallback only when the QFI has no configuration", w.Pos(l.Pos()), "under !ok", "the default burst configuration replaces a configured one")
+				}
+			})
+		}
+		r.floor("R09.3 qciQosMap lookups", n, 2)
 	}
 	// readQciQosMap copies like-named fields
 	{
